@@ -750,3 +750,25 @@ def f_two_segments(ops=("SUB", "ADD", "LT", "AND", "SHL", "DIV")):
                 for b in ("%s" % op2, "DUP3 %s" % op2, "DUP2 DUP2 %s SWAP1 POP" % op2, "DUP2 DUP2 %s DUP3 %s" % (op2, op)):
                     out.append("DUP2 DUP2 %s %s %s" % (op, split, b))
     return list(dict.fromkeys(out))
+
+
+def f_every_static_opcode():
+    """one block per statically priced opcode of the independent cost table (operands taken from the input stack, result
+    left on the stack) and one where its result is used twice: an entry of the tool's gas/size tables that is wrong for an
+    opcode no rule mentions is only visible on a block that contains that opcode"""
+    from . import cost
+    out = []
+    for op in sorted(cost.BASE | cost.VERYLOW | cost.LOW | cost.MID):
+        if op in ("POP", "PUSH0", "PC", "GAS", "JUMP", "MSTORE", "MSTORE8"):
+            continue
+        try:
+            E.arity(op)
+        except Exception:       # noqa
+            continue
+        out.append(op)
+        out.append("%s DUP1 ADD" % op)
+        out.append("%s DUP1" % op)
+    for k in range(1, 17):
+        out.append("DUP%d" % k)
+        out.append("SWAP%d" % k)
+    return out
